@@ -353,7 +353,8 @@ Proof.
   intro H. unfold dec_enum. apply rel_bind; [apply rel_refl|intros r].
   destruct r as [n|]; [|apply rel_refl].
   destruct (N.eqb_spec n 2) as [->|Hn].
-  - apply rel_bind; [apply rel_refl|intro i].
+  - apply rel_bind; [apply rel_refl|intro i]. rewrite (Forall2_len _ _ _ H).
+    destruct (i <? len ds2); [|apply rel_refl].
     pose proof (Forall2_nth _ _ _ (N.to_nat i) H) as G.
     destruct (nth_error ds1 (N.to_nat i)), (nth_error ds2 (N.to_nat i)); try contradiction; [|apply rel_refl].
     apply rel_bind; [exact G|intro; apply rel_refl].
